@@ -75,6 +75,10 @@ func c01rGen(t *rapid.T) c01rScenario {
 			if !sc.LMTP {
 				p["afterdata"] = "drop" // the message is accepted, then the server is gone: QUIT cannot be said any more
 			}
+		case 4:
+			if !sc.LMTP {
+				p["data"] = "S2" // the message is accepted with a positive reply other than 250
+			}
 		}
 		for _, r := range sc.Rcpts {
 			switch rapid.IntRange(0, 9).Draw(t, "rcptfault") {
